@@ -36,28 +36,25 @@ WELL-FORMEDNESS `V4.wf k p` — every exclusion and why (k = copy):
    `Success(q)`, the v5 codes are written as bytes no v4 reader accepts);
  * CONNECT protocol level: client {4, 5} (its `Protocol` enum), broker 4.
 
-WELL-FORMEDNESS, MQTT 5. `V5.wfSpec k p` is what the monitor of the correspondence run treats as a
-well-formed value; `V5.wf k p` (the precondition of the `_partial` theorems) is `wfSpec` plus
-(a) the reader's cursor accounting reads the property block exactly (`loopExact`; automatic
-unless subscription identifiers are present — `v5_cursor_exact_without_subscription_ids`) and
-(b) minus the three shapes on which the code as it stands violates the property (each with a
-`decide`d witness below and an entry in KNOWN_FINDINGS.txt). Exclusions of `wfSpec`:
+WELL-FORMEDNESS, MQTT 5: `V5.wf k p`, one predicate, used as the precondition of the theorems and
+(the same function, evaluated by the driver) of the monitor of the correspondence run. Exclusions:
  * field widths / UTF-8 / publish id rule / non-empty SUBSCRIBE, SUBACK, UNSUBACK lists /
    `Login` with both strings empty / remaining length ≤ 268 435 455: as for 3.1.1;
  * a properties struct with every field empty (`Some(default)`): written as length 0, read back
-   as `None`; a property value out of the range of its wire type; a subscription identifier
-   > 268 435 455 (`write_remaining_length` fails); properties not in the struct (not representable);
+   as `None` (for DISCONNECT: `e0 02 <reason> 00`, read back as (reason, None)); a property value
+   out of the range of its wire type; a subscription identifier > 268 435 455
+   (`write_remaining_length` fails); properties not in the struct (not representable);
  * CONNACK codes `RefusedProtocolVersion`, `BadClientId`, `ServiceUnavailable` (3.1.1 codes that
    exist in the v5 enums; `connect_code` → `unreachable!()`);
  * SUBACK codes that are a second name of a wire value: `Failure` (written 0x80 = `Unspecified`),
    broker `Success(q)` (reads back as `QoS0/1/2`); the client enum has no `QoS0/1/2`;
  * CONNECT level ≠ 5; broker CONNECT with will properties but no will (dropped);
  * the `Auth` packet of the client (written only, `Packet::read` has no arm) is not modelled.
-Excluded from `wf` only, as defects of the code (findings):
- * broker copy: CONNACK and UNSUBACK (`V5::read_mut` → `unreachable!()`);
- * DISCONNECT without properties: reason ≠ NormalDisconnection (declares 1 byte, writes 2), and
-   in the client copy also NormalDisconnection (`e0 00` is refused by `Packet::read`);
- * PUBLISH whose subscription identifiers make the cursor overshoot (`loopExact` false).
+History: until commits c0aab5e, a5a3ef5, c89564d+95ce8d5, 86cba48 of /repo the v5 statements were
+`_partial` (broker could not read CONNACK/UNSUBACK; subscription identifiers were counted twice by
+the property readers; DISCONNECT with a reason and no properties was mis-sized; the client could
+not read `e0 00`). The code was repaired, the model follows it, the statements are now full; the
+concrete inputs of the former counter-examples are kept as `v5_regression_*`.
 -/
 import Proofs.Lemmas.Codec.V4
 import Proofs.Lemmas.Codec.V5
@@ -191,21 +188,19 @@ example : V4.wf .client (.subscribe 1 none [⟨[35], .q1, false, false, .OnEvery
 
 /-! ## MQTT 5 -/
 
-/-- C04 (1)+(2), v5, both copies — `_partial`: the full statement (for every `wfSpec` value) is
-    false on the unchanged code, see the three witnesses below; this is the statement with exactly
-    those shapes excluded (`V5.wf`). Well-formed packets are encoded successfully; the value
-    `write` returns and the value `size()` reports both equal the number of bytes produced; decoding
-    the produced bytes followed by anything returns the same packet and exactly the rest. -/
-theorem v5_roundtrip_partial (k : Copy) (p : Packet) (h : V5.wf k p = true) :
+/-- C04 (1)+(2), v5, both copies, all 14 packet types with every property: a well-formed packet
+    is encoded successfully; the value `write` returns and the value `size()` reports both equal
+    the number of bytes produced; decoding the produced bytes followed by anything returns the
+    same packet and exactly the rest. -/
+theorem v5_roundtrip (k : Copy) (p : Packet) (h : V5.wf k p = true) :
     ∃ out, V5.encode k p = .ok out ∧ V5.writeReturn k p = .ok out.length ∧
       out.length = V5.size k p ∧
       ∀ max r, out.length ≤ max → V5.decode k max (out ++ r) = .packet p r :=
   V5.roundTrips k p h
 
-/-- C04 (3), v5, client → broker (`_partial` for the same reason: CONNACK, UNSUBACK and the
-    property-less DISCONNECT are outside `V5.wf .broker`). `toBroker` renames the granted-QoS
-    SubAck codes `Success(q)` ↦ `QoS0/1/2` and is the identity otherwise. -/
-theorem v5_interop_client_to_broker_partial (p : Packet) (hc : V5.wf .client p = true)
+/-- C04 (3), v5, client → broker. `toBroker` renames the granted-QoS SubAck codes
+    `Success(q)` ↦ `QoS0/1/2` and is the identity otherwise. -/
+theorem v5_interop_client_to_broker (p : Packet) (hc : V5.wf .client p = true)
     (hb : V5.wf .broker (V5.toBroker p) = true) :
     ∃ out, V5.encode .client p = .ok out ∧
       ∀ max r, out.length ≤ max → V5.decode .broker max (out ++ r) = .packet (V5.toBroker p) r := by
@@ -215,7 +210,7 @@ theorem v5_interop_client_to_broker_partial (p : Packet) (hc : V5.wf .client p =
   exact h1
 
 /-- C04 (3), v5, broker → client. -/
-theorem v5_interop_broker_to_client_partial (q : Packet) (hb : V5.wf .broker q = true)
+theorem v5_interop_broker_to_client (q : Packet) (hb : V5.wf .broker q = true)
     (hc : V5.wf .client (V5.toClient q) = true) :
     ∃ out, V5.encode .broker q = .ok out ∧
       ∀ max r, out.length ≤ max → V5.decode .client max (out ++ r) = .packet (V5.toClient q) r := by
@@ -224,28 +219,12 @@ theorem v5_interop_broker_to_client_partial (q : Packet) (hb : V5.wf .broker q =
   simp only [V5.encode, V5.encodeRet_toClient q hb] at h1 ⊢
   exact h1
 
-/-- C04 (3), v5, broker → client for the two packet types the broker can write but not read
-    (so that `V5.wf .broker` excludes them): CONNACK and UNSUBACK written by the broker — the
-    direction in which these packets actually travel — decode in the client to the same value,
-    and the count `write` returns is the number of bytes. -/
-theorem v5_interop_broker_to_client_connack_unsuback (q : Packet)
-    (hq : (∃ sp c pr, q = .connack sp c pr) ∨ (∃ id pr rs, q = .unsuback id pr rs))
-    (hc : V5.wf .client q = true) :
-    ∃ out, V5.encode .broker q = .ok out ∧ V5.writeReturn .broker q = .ok out.length ∧
-      ∀ max r, out.length ≤ max → V5.decode .client max (out ++ r) = .packet q r := by
-  obtain ⟨out, h1, h2, _, h4⟩ := V5.roundTrips .client q hc
-  have he : V5.encodeRet .broker q = V5.encodeRet .client q := by
-    rcases hq with ⟨sp, c, pr, rfl⟩ | ⟨id, pr, rs, rfl⟩ <;> rfl
-  refine ⟨out, ?_, ?_, h4⟩
-  · simp only [V5.encode, he] at h1 ⊢; exact h1
-  · simp only [V5.writeReturn, he] at h2 ⊢; exact h2
-
-/-- the cursor condition inside `V5.wf` is automatic for every property block that carries no
-    subscription identifier: only PUBLISH (and SUBSCRIBE) properties can be affected -/
-theorem v5_cursor_exact_without_subscription_ids (spec : V5.PropSpec) (o : Option Props)
-    (h : V5.propsOkSpec spec o = true) (hv : ∀ ps, o = some ps → ∀ p ∈ ps, p.val.kind ≠ .var) :
-    V5.propsOk spec o = true :=
-  V5.propsOk_of_spec_noVar spec o h hv
+/-- every packet well-formed for the client is, after the renaming, well-formed for the broker
+    and conversely (the second hypothesis of the interop theorems is no extra restriction) -/
+theorem v5_wf_client_broker (p : Packet) :
+    (V5.wf .client p = true → V5.wf .broker (V5.toBroker p) = true) ∧
+    (V5.wf .broker p = true → V5.wf .client (V5.toClient p) = true) :=
+  ⟨V5.wf_toBroker p, V5.wf_toClient p⟩
 
 /-- C04 (4), v5: remaining length above the limit is refused. -/
 theorem v5_encode_rejects_oversize (k : Copy) (p : Packet) (e : V4.Enc)
@@ -255,20 +234,18 @@ theorem v5_encode_rejects_oversize (k : Copy) (p : Packet) (e : V4.Enc)
   simp only [he, encVarint_err _ h] at this
   simp [V5.encode, this]
 
-/-! ### witnesses: the unchanged code violates the full statement (findings) -/
+/-! ### the inputs of the former counter-examples (repaired defects, see KNOWN_FINDINGS `fixed:`) -/
 
-/-- PUBLISH, three subscription identifiers (both crates: `cursor += 1 + id_len`): topic "a",
-    ids [1, 2, 3], payload ff. The value is well-formed (`wfSpec`), the writer produces 13 bytes,
-    and the reader returns ids [1, 2] with payload 0b 03 ff. -/
-theorem v5_publish_three_subscription_ids_misparse :
+/-- a5a3ef5: PUBLISH with three subscription identifiers (topic "a", ids [1,2,3], payload ff)
+    is well-formed, is written as these 13 bytes and read back unchanged by both copies. -/
+theorem v5_regression_three_subscription_ids :
     let p := Packet.publish false .q0 false [97] 0 [0xff]
       (some [⟨11, .var 1⟩, ⟨11, .var 2⟩, ⟨11, .var 3⟩])
     let bytes : Bytes := [0x30, 0x0b, 0x00, 0x01, 0x61, 0x06, 0x0b, 0x01, 0x0b, 0x02, 0x0b, 0x03, 0xff]
-    V5.wfSpec .client p = true ∧ V5.wfSpec .broker p = true ∧ V5.wf .client p = false ∧
+    V5.wf .client p = true ∧ V5.wf .broker p = true ∧
     V5.encode .client p = .ok bytes ∧ V5.encode .broker p = .ok bytes ∧
-    (∀ k, V5.decode k 100 bytes = .packet (.publish false .q0 false [97] 0 [0x0b, 0x03, 0xff]
-      (some [⟨11, .var 1⟩, ⟨11, .var 2⟩])) []) := by
-  refine ⟨by decide, by decide, by decide, ?_, ?_, ?_⟩
+    (∀ k, V5.decode k 100 bytes = .packet p []) := by
+  refine ⟨by decide, by decide, ?_, ?_, ?_⟩
   · simp [V5.encode, V5.encodeRet, V5.encParts, V5.encPublish, V5.encProps, V5.propListLen,
       V5.pvalLen, V5.varsFit, V5.publishLen, V5.propsLen, V5.encPropList, V5.encProperty, V5.encPVal,
       encVarint, encVarintLoop_lt128, lenLen, remainingLimit, V4.publishByte1, boolBit, QoS.toNat,
@@ -279,45 +256,40 @@ theorem v5_publish_three_subscription_ids_misparse :
       encBytes16, encU16, u8]
   · intro k; cases k <;> decide
 
-/-- DISCONNECT with a reason but no properties (both crates): `len()` says 1, two body bytes are
-    written; `write` returns 3 for 4 bytes, and neither decoder accepts the declared frame. -/
-theorem v5_disconnect_reason_without_properties_broken (k : Copy) :
-    V5.wfSpec k (.disconnect .ServerBusy none) = true ∧
-    V5.encodeRet k (.disconnect .ServerBusy none) = .ok ([0xE0, 0x01, 0x89, 0x00], 3) ∧
-    V5.size k (.disconnect .ServerBusy none) = 3 ∧
-    V5.decode .client 100 [0xE0, 0x01, 0x89, 0x00] = .error .insufficient ∧
-    V5.decode .broker 100 [0xE0, 0x01, 0x89, 0x00] = .error .insufficient := by
-  refine ⟨by cases k <;> decide, ?_, by cases k <;> decide, by decide, by decide⟩
-  simp [V5.encodeRet, V5.encDisconnect, V5.disconnectLen, encVarint, encVarintLoop_lt128,
-    remainingLimit, V5.encProps, V5.discReasonByte, u8]
+/-- c89564d + 95ce8d5: DISCONNECT with a reason and no properties is `e0 02 89 00`; returned count
+    and `size()` are 4; both copies read it back. 86cba48: the plain `e0 00` is read by both. -/
+theorem v5_regression_disconnect (k : Copy) :
+    V5.wf k (.disconnect .ServerBusy none) = true ∧
+    V5.encodeRet k (.disconnect .ServerBusy none) = .ok ([0xE0, 0x02, 0x89, 0x00], 4) ∧
+    V5.size k (.disconnect .ServerBusy none) = 4 ∧
+    (∀ k', V5.decode k' 100 [0xE0, 0x02, 0x89, 0x00] = .packet (.disconnect .ServerBusy none) []) ∧
+    V5.encodeRet k (.disconnect .NormalDisconnection none) = .ok ([0xE0, 0x00], 2) ∧
+    (∀ k', V5.decode k' 100 [0xE0, 0x00] = .packet (.disconnect .NormalDisconnection none) []) := by
+  refine ⟨by cases k <;> decide, ?_, by cases k <;> decide, by intro k'; cases k' <;> decide, ?_,
+    by intro k'; cases k' <;> decide⟩
+  · simp [V5.encodeRet, V5.encDisconnect, V5.disconnectLen, V5.disconnectPlain, encVarint,
+      encVarintLoop_lt128, remainingLimit, V5.encProps, V5.discReasonByte, u8]
+  · simp [V5.encodeRet, V5.encDisconnect, V5.disconnectLen, V5.disconnectPlain, u8]
 
-/-- the client library writes `e0 00` for a plain DISCONNECT and refuses to read it -/
-theorem v5_client_cannot_read_plain_disconnect :
-    V5.wfSpec .client (.disconnect .NormalDisconnection none) = true ∧
-    V5.encodeRet .client (.disconnect .NormalDisconnection none) = .ok ([0xE0, 0x00], 2) ∧
-    V5.decode .client 100 [0xE0, 0x00] = .error .malformed ∧
-    V5.decode .broker 100 [0xE0, 0x00] = .packet (.disconnect .NormalDisconnection none) [] := by
-  refine ⟨by decide, ?_, by decide, by decide⟩
-  simp [V5.encodeRet, V5.encDisconnect, V5.disconnectLen, u8]
+/-- c0aab5e: the broker reads the CONNACK and UNSUBACK it writes -/
+theorem v5_regression_broker_reads_connack_and_unsuback :
+    V5.decode .broker 100 [0x20, 0x03, 0x00, 0x00, 0x00] = .packet (.connack false .Success none) [] ∧
+    V5.decode .broker 100 [0xB0, 0x04, 0x00, 0x01, 0x00, 0x00]
+      = .packet (.unsuback 1 none [.Success]) [] := by
+  decide
 
-/-- the broker's MQTT 5 reader panics (`unreachable!()`) on the CONNACK and UNSUBACK it writes -/
-theorem v5_broker_panics_on_connack_and_unsuback :
-    V5.wfSpec .broker (.connack false .Success none) = true ∧
-    V5.encode .broker (.connack false .Success none) = .ok [0x20, 0x03, 0x00, 0x00, 0x00] ∧
-    V5.decode .broker 100 [0x20, 0x03, 0x00, 0x00, 0x00] = .error .panic ∧
-    V5.wfSpec .broker (.unsuback 1 none [.Success]) = true ∧
-    V5.encode .broker (.unsuback 1 none [.Success]) = .ok [0xB0, 0x04, 0x00, 0x01, 0x00, 0x00] ∧
-    V5.decode .broker 100 [0xB0, 0x04, 0x00, 0x01, 0x00, 0x00] = .error .panic := by
-  refine ⟨by decide, ?_, by decide, by decide, ?_, by decide⟩
-  · simp [V5.encode, V5.encodeRet, V5.encParts, V5.encConnAck, V5.connCodeByte, V5.encProps,
-      V5.propsLen, encVarint, encVarintLoop_lt128, remainingLimit, boolBit, u8]
-  · simp [V5.encode, V5.encodeRet, V5.encParts, V5.encUnsubAck, V5.encProps, V5.propsLen,
-      V5.unsubReasonByte, encVarint, encVarintLoop_lt128, remainingLimit, encU16, u8]
+/-- DEV kept visible: a zero-length DISCONNECT with non-zero flag bits (`e1 00`, reachable from raw
+    bytes only) is refused by the client and read as NormalDisconnection by the broker -/
+theorem v5_empty_disconnect_flags_deviation :
+    V5.decode .client 100 [0xE1, 0x00] = .error .malformed ∧
+    V5.decode .broker 100 [0xE1, 0x00] = .packet (.disconnect .NormalDisconnection none) [] := by
+  decide
 
 /-! non-vacuity for MQTT 5 -/
 example : V5.wf .client (.publish true .q1 false [97, 47, 98] 7 [1, 2]
     (some [⟨1, .u8 1⟩, ⟨2, .u32 60⟩, ⟨35, .u16 9⟩, ⟨8, .str [114]⟩, ⟨9, .bin [0xff]⟩,
-           ⟨38, .pair [107] [118]⟩, ⟨11, .var 268435455⟩, ⟨11, .var 1⟩, ⟨3, .str [116]⟩])) = true := by
+           ⟨38, .pair [107] [118]⟩, ⟨11, .var 268435455⟩, ⟨11, .var 1⟩, ⟨11, .var 7⟩,
+           ⟨11, .var 128⟩, ⟨3, .str [116]⟩])) = true := by
   decide
 example : V5.wf .broker (.subscribe 1 (some [⟨11, .var 5⟩, ⟨38, .pair [107] [118]⟩])
     [⟨[35], .q2, true, true, .Never⟩, ⟨[97], .q0, false, false, .OnEverySubscribe⟩]) = true := by decide
@@ -325,10 +297,12 @@ example : V5.wf .broker (.suback 9 none [.QoS1, .NotAuthorized]) = true ∧
     V5.wf .client (V5.toClient (.suback 9 none [.QoS1, .NotAuthorized])) = true := by decide
 example : V5.wf .client (.connect 5 30 [99] true (some [⟨17, .u32 0⟩, ⟨38, .pair [] []⟩])
     (some ⟨[116], [109], .q2, true, some [⟨24, .u32 5⟩]⟩) (some ⟨[], [112]⟩)) = true := by decide
-example : V5.wf .client (.connack true .Banned (some [⟨36, .u8 1⟩, ⟨22, .bin [1]⟩])) = true := by decide
+example : V5.wf .broker (.connack true .Banned (some [⟨36, .u8 1⟩, ⟨22, .bin [1]⟩])) = true := by decide
+example : V5.wf .broker (.unsuback 3 (some [⟨31, .str [120]⟩]) [.Success, .NotAuthorized]) = true := by
+  decide
 example : V5.wf .client (.disconnect .ServerBusy (some [⟨31, .str [120]⟩])) = true := by decide
-example : V5.wf .broker (.disconnect .NormalDisconnection none) = true := by decide
-
+example : V5.wf .client (.disconnect .ServerBusy none) = true ∧
+    V5.wf .client (.disconnect .NormalDisconnection none) = true := by decide
 
 /-! ## C04 (5): code tables, machine-checked against the code
 `Generated.Tables.*` is produced on every run by executing the real readers on all 256 byte values
@@ -350,6 +324,7 @@ theorem table_connack_v4 :
 
 theorem table_connack_v5 :
     decTable ConnCode.name V5.connCodeOfByte = Generated.Tables.connackDec_c5 ∧
+    decTable ConnCode.name V5.connCodeOfByte = Generated.Tables.connackDec_b5 ∧
     encTable ConnCode.name connCodesC5 V5.connCodeByte = Generated.Tables.connackEnc_c5 ∧
     encTable ConnCode.name connCodesB V5.connCodeByte = Generated.Tables.connackEnc_b5 := by
   decide +kernel
@@ -392,6 +367,7 @@ theorem table_pubrel_pubcomp_v5 :
 
 theorem table_unsuback_v5 :
     decTable UnsubReason.name V5.unsubReasonOfByte = Generated.Tables.unsubackDec_c5 ∧
+    decTable UnsubReason.name V5.unsubReasonOfByte = Generated.Tables.unsubackDec_b5 ∧
     encTable UnsubReason.name allUnsubReasons (fun r => some (V5.unsubReasonByte r)) = Generated.Tables.unsubackEnc_c5 ∧
     encTable UnsubReason.name allUnsubReasons (fun r => some (V5.unsubReasonByte r)) = Generated.Tables.unsubackEnc_b5 := by
   decide +kernel
